@@ -390,6 +390,8 @@ impl ActorProperties {
             crate::verif::point("wait.checked", self.id.pid(), 0);
             notified.await;
         }
+        #[cfg(ractor_verif)]
+        crate::verif::point("wait.done", self.id.pid(), 0);
     }
 
     /// Send the kill signal, threading in a OneShot sender which notifies when the shutdown is completed
